@@ -67,25 +67,25 @@ type write struct {
 
 // lnk is the harness side of one link: its source and sink.
 type lnk struct {
-	name   string
-	dir    string
-	t0     time.Time
-	feed   chan []byte // source: next Read result; closed = EOF
-	reads  atomic.Int32
-	mu     sync.Mutex
-	gate   chan struct{} // closed when the sink accepts; replaced when it blocks
-	ready  bool
-	fail   bool
-	log    []write
-	hist   []write // every write, never cleared
-	markLen int
-	markAt  int64
-	all    []byte
-	sent   []byte
-	closed bool
+	name     string
+	dir      string
+	t0       time.Time
+	feed     chan []byte // source: next Read result; closed = EOF
+	reads    atomic.Int32
+	mu       sync.Mutex
+	gate     chan struct{} // closed when the sink accepts; replaced when it blocks
+	ready    bool
+	fail     bool
+	log      []write
+	hist     []write // every write, never cleared
+	markLen  int
+	markAt   int64
+	all      []byte
+	sent     []byte
+	closed   bool
 	closedAt int64
-	eof    bool
-	ctr    byte
+	eof      bool
+	ctr      byte
 }
 
 type source struct{ l *lnk }
@@ -171,15 +171,15 @@ func attrsJSON(ty string, a1, a2, a3 int64) string {
 
 // Trace: what the oracles look at (implementation only).
 type LinkTrace struct {
-	Name      string
-	Dir       string
-	Sent      []byte
-	Got       []byte
-	Closed    bool
-	SrcEOF    bool
-	EverTimeout bool // a timeout toxic was at some time in this link's direction
-	EverLimit   bool
-	EverSlowSink bool // the sink was made to block / fail at some point
+	Name          string
+	Dir           string
+	Sent          []byte
+	Got           []byte
+	Closed        bool
+	SrcEOF        bool
+	EverTimeout   bool // a timeout toxic was at some time in this link's direction
+	EverLimit     bool
+	EverSlowSink  bool // the sink was made to block / fail at some point
 	AllPreserving bool
 }
 
@@ -384,6 +384,11 @@ func (e *Engine) episode(ops []string, res *report.Result) *report.Failure {
 				prop := "C04"
 				if strings.Contains(","+e.Props+",", ",C14,") && !strings.Contains(","+e.Props+",", ",C04,") {
 					prop = "C14"
+				}
+				if e.Props == "C08" {
+					// (checked for C08: the same burst is delayed differently on a connection made
+					// after the change - throttled, or not delayed by latency +/- jitter)
+					prop = "C08"
 				}
 				result = fail(i, "oracle", prop, "", fmt.Sprintf("old link %s: [%s] closed=%v; new link %s: [%s] closed=%v (time since probe start : bytes)", a.name, strings.Join(sa, " "), ac, z.name, strings.Join(sz, " "), zc),
 					"a connection established before the latest configuration change and one established after it treat the same traffic differently: the listed toxics are not what is in effect on both", "e3:"+prop+":old-vs-new")
